@@ -232,6 +232,21 @@ contract(A + "InMemoryAlignmentStorage.fill_index", {"self": "rec:InMemoryAlignm
                   "self.region[0] // 256, self.region[1] // 256 + 1)"])
 
 
+# reset: one storage object is reused for every read cluster of a chromosome; nothing of the previous cluster may survive
+contract(A + "AbstractAlignmentStorage.reset#inmemory", {"self": "rec:InMemoryAlignmentStorage"}, returns="none", props=["C05"],
+         modifies=["self.coverage_dict", "self.region"], transparent=True, native=False,
+         ensures=["len(self.coverage_dict) == 0", "self.region is None"])
+contract(A + "InMemoryAlignmentStorage.reset", {"self": "rec:InMemoryAlignmentStorage"}, returns="none", props=["C05"],
+         modifies=["self.coverage_dict", "self.region", "self.alignment_start_index", "self.alignment_end_index", "self.counter",
+                   "self.alignment_storage", "self.index_filled"],
+         bind={"call:reset": A + "AbstractAlignmentStorage.reset#inmemory"},
+         # the state of a freshly constructed storage, field by field
+         ensures=["len(self.coverage_dict) == 0", "self.region is None", "len(self.alignment_start_index) == 0",
+                  "len(self.alignment_end_index) == 0", "self.counter == 0", "len(self.alignment_storage) == 0", "not self.index_filled"],
+         native_args=lambda am: _mem_args(am), gen=lambda rng, n: ({"self": d["self"]} for d in _gen_mem(rng, n)),
+         canary="self.counter == old(self.counter)")
+
+
 def _mem_args(argmap):
     ap = native.repo_import("src/alignment_processor.py")
     s = argmap["self"]
@@ -310,6 +325,29 @@ def _index_case(seed):
         want = [(x.reference_start, x.reference_end) for _, x in S if not (b < x.reference_start or a > x.reference_end - 1)]
         if (a, b) != st.region and got != want:
             problems.append("sub-region %s: got %s want %s" % ((a, b), got, want))
+    # reuse: one storage serves every read cluster of a chromosome (reset between clusters); a reused storage must answer exactly like a
+    # fresh one, whatever the previous cluster left behind
+    first = [x for _, x in S]
+    shift = st.region[1] + rng.choice([1, 2, 40, 300])
+    second = [_StubAlignment(x.reference_start + shift - first[0].reference_start + rng.choice([0, 0, 17]), 0) for x in first[:rng.randint(1, len(first))]]
+    second.sort(key=lambda x: x.reference_start)
+    for x in second:
+        x.reference_end = x.reference_start + rng.choice([1, 5, 30, 256, rng.randint(1, 900)])
+    fresh = ap.InMemoryAlignmentStorage()
+    st.reset()
+    for x in second:
+        st.add_alignment(0, x)
+        fresh.add_alignment(0, x)
+    if st.get_read_count() != fresh.get_read_count() or st.region != fresh.region or dict(st.coverage_dict) != dict(fresh.coverage_dict):
+        problems.append("reused storage differs from a fresh one after reset: region %s / %s" % (st.region, fresh.region))
+    for _ in range(6):
+        a = rng.randint(fresh.region[0], fresh.region[1]); b = rng.randint(a, fresh.region[1])
+        if rng.random() < .4:
+            a = fresh.region[0]
+        got = [(x.reference_start, x.reference_end) for _, x in st.get_alignments((a, b))]
+        want = [(x.reference_start, x.reference_end) for _, x in fresh.get_alignments((a, b))]
+        if got != want:
+            problems.append("after reset, sub-region %s: reused storage gives %s, a fresh one %s" % ((a, b), got, want))
     return problems
 
 
@@ -320,7 +358,8 @@ def replay_index(d):
 
 @bounded("C05.inmemory_index", ["C05"], note="real InMemoryAlignmentStorage: add_alignment in start order then fill_index must establish "
          "index_ok (the contract get_alignments relies on), and get_alignments of random sub-regions must return exactly the overlapping "
-         "reads; bound: N random storages of <= 9 reads with bin-boundary-heavy coordinates")
+         "reads; after reset() and a second cluster starting right behind the first, the reused storage must answer like a fresh one; "
+         "bound: N random storages of <= 9 reads with bin-boundary-heavy coordinates")
 def c05_index(tier, rng):
     n = 400 if tier == "quick" else 20000
     base = rng.randrange(10 ** 9)
